@@ -22,7 +22,35 @@ DESC = {
  'C10-1': ('C10', 'sync client resource helpers sorted by resource_type only (tie-break removed)', 'two resources with the same short type name under different domains'),
  'C10-2': ('C10', 'sort_lines sorts by the text before a trailing comment (ties between lines differing in their comment)', 'mixin yaml (Operations/Locations) + an RPC referencing a type of that module directly'),
  'C05-1': ('C05', "mixed-argument guard uses any(flattened_params) instead of 'is not None'", 'sync client, request + a falsy-but-set flattened argument (0, "", False, [], {})'),
+ 'C08-1': ('C08', "_maybe_get_lro treats an annotation with BOTH type names empty as 'no annotation'", 'Operation-returning method annotated with an empty operation_info {}'),
+ 'C08-2': ('C08', 'OperationInfo.with_context skipped for non-proto-plus LRO types: api-core operation module loses its alias', 'LRO with Empty response + method_signature field literally named `operation` + sync client'),
+ 'C12-1': ('C12', 'Address.python_import drops the module alias for types from a proto-plus dependency', 'option proto-plus-deps + a module of that package sharing its base name with another imported module'),
+ 'C12-2': ('C12', "to_camel_case keeps a trailing underscore ('type_')", 'REST + REQUIRED field named by a reserved word travelling as a query parameter'),
+ 'C13-1': ('C13', 'REST required-defaults table renders every non-string scalar default as the literal 0', 'REQUIRED bool/float/double field that is a REST query parameter (default templates)'),
+ 'C13-2': ('C13', "asyncio client: 'and not field.map' removed from the list-extend loop of flattened fields", 'asyncio client + method_signature containing a map field'),
+ 'C17-1': ('C17', 'selector->method map of mixin services accumulates across calls', 'own IAM RPC + IAMPolicy with rules + google.longrunning.Operations also listed'),
+ 'C17-2': ('C17', 'legacy add-iam entries of the asyncio transport emitted only when the API has no IAM mixin', 'add-iam-methods + IAMPolicy listed + an IAM RPC without http rule + asyncio client'),
+ 'C18-1': ('C18', 'AIP-4235 field checks cached per request message (ignores the selector\'s own field list)', 'two RPCs sharing one request message with different auto_populated_fields, the valid one first'),
+ 'C18-2': ('C18', 'auto_populate call moved inside the implicit-routing branch of create_metadata', 'auto-populated method with explicit routing annotation or without any routing header'),
+ 'C19-1': ('C19', 'path_regex_str drops the literal text after the last variable', 'pattern ending in a literal (singleton suffix)'),
+ 'C19-2': ('C19', 'Ads client formats resource_path instead of resource_path_formatted', 'ads-templates + a trailing {v=**} variable'),
+ 'C20-1': ('C20', "fix_whitespace skips the blank-line passes unless the RAW text contains three newlines in a row", 'surplus blank-line run whose blank lines carry spaces, in a file without a literal triple newline'),
+ 'C20-2': ('C20', 'rst() pads a trailing double quote only on the plain route', 'single-line comment with a markup character that ends in a double quote, at a site that closes the docstring right after it'),
  'C05-2': ('C05', 'asyncio client extends repeated flattened fields again for dependency-package requests', 'asyncio client + request from a dependency package + non-empty repeated scalar flattened field'),
+}
+HISTORY = {
+ 'C15-1': 'MISSED at first; caught after service pairs were added to the tiny scope of Pipeline.tla and `internal` to the shapes scope',
+ 'C15-2': 'MISSED at first; caught after the carrier request got non-monotonic field numbers',
+ 'C03-1': 'MISSED at first; caught after the call driver was changed to two clients on two servers (own-channel flag in sent events, CallTrace requires it)',
+ 'C03-2': 'caught by C12 at first, by C03 too after keyword / CreateChannel RPC names were added to the Call carrier',
+ 'C01-1': 'MISSED by C01 at first; caught after feature f_nested got references two and three levels into the referencing message',
+ 'C06-2': 'MISSED at first; caught after the `custom` http pattern was added to the implicit-routing space of Routing.tla',
+ 'C10-2': 'MISSED at first; caught after the stress API got a raw-Operation RPC next to the Operations mixin (feature m_raw_operation)',
+ 'C12-1': 'MISSED at first; caught after the proto-plus-deps collision case was added',
+ 'C12-2': 'caught by C04 at first; by C12 too after the top-level field case made the word REQUIRED and REST-query bound',
+ 'C13-1': 'caught by C04 at first; by C13 too after feature s_required got required bool/double/int64 query parameters',
+ 'C13-2': 'caught by C05 at first; by C13 too after a flattened map method and fixed corner pairs were added',
+ 'C07-1': 'caught by the classification part (Paging.tla) that had just been added to C07',
 }
 for d in sorted(glob.glob(os.path.join(VERIF, 'seeded', '*'))):
     name = os.path.basename(d)
@@ -41,6 +69,7 @@ for d in sorted(glob.glob(os.path.join(VERIF, 'seeded', '*'))):
                 confirmed=dict(pinned_suite=r.get('pytest'), demo_on_clean_tree_exit=r.get('demo_clean_rc'), demo_with_change_exit=r.get('demo_patched_rc'),
                                patch_applies=r.get('apply_rc') == 0),
                 ran=[f"tools/seedcheck.py {name} seeded/{name}/patch.diff seeded/{name}/demo.py {','.join(r.get('props', []))} --tier {r.get('tier')}"],
-                caught_by={k: dict(caught=v, first_keys=r['checks'][k]['keys'][:3]) for k, v in caught.items()})
+                caught_by={k: dict(caught=v, first_keys=r['checks'][k]['keys'][:3]) for k, v in caught.items()},
+                history=HISTORY.get(name, 'caught by the checks as they were when the change was first evaluated'))
     json.dump(meta, open(os.path.join(d, 'meta.json'), 'w'), indent=1)
     print(name, caught)
